@@ -260,3 +260,16 @@ Theorem C16_users_disk_roundtrip_on_domain :
             read_users t = (UState None (sort_users db) (max_id (sort_users db) 0%Z), None).
 Proof. exact users_disk_roundtrip. Qed.
 Print Assumptions C16_users_disk_roundtrip_on_domain.
+
+(* every nick dictionary that a sequence of accepted IrcUser.addNick / removeNick calls builds, starting from
+   a new account, satisfies the nick conditions of users_dom (every entry: network a token, list non-empty,
+   nicks without CR/LF/TAB/space; networks distinct), i.e. it is written and read back unchanged
+   (C16_users_roundtrip_on_domain).  Rests on the pinned statement order and on the whitespace check of
+   addNick (table ADDNICK_REFUSES_WHITESPACE, true since the repair C16.j). *)
+Theorem C16_accepted_nick_calls_stay_in_domain :
+  nicks_inv fresh_user /\
+  (forall db u net nick valid, nicks_inv u -> nicks_inv (fst (add_nick db u net nick valid))) /\
+  (forall u net nick, nicks_inv u -> nicks_inv (fst (remove_nick u net nick))) /\
+  (forall u, nicks_inv u -> forallb nick_ok (u_nicks u) = true /\ nicks_stable (u_nicks u) = true).
+Proof. exact accepted_calls_domain. Qed.
+Print Assumptions C16_accepted_nick_calls_stay_in_domain.
